@@ -718,6 +718,46 @@ Proof.
     rewrite (proj2 (leb2_spec _ _) Hle). apply andb_true_r.
 Qed.
 
+(* The fact behind the open finding `ended-session-tail-not-served`: let d be (an upper bound of)
+   the id of the last batch with a message addressed to the session - e.g. the batch of the
+   message that ended it (ERROR :Closing Link).  A reader that keeps following the stream until its
+   handler has passed d, with nothing left in flight, has received the session's whole filtered
+   stream.  handleGetMessages does NOT keep following: once the session is gone it returns after the
+   batch in flight (modelled by the disconnect step RS_disconnect, which may fire at any moment),
+   and api.session() refuses the reconnect (there is no RS_connect for an ended session in the real
+   system) - so a reader that was behind when its session ended never reaches this state. *)
+Lemma filter_int_ext (f g : omsg -> bool) l :
+  (forall m, List.In m l -> int m = true -> f m = g m) ->
+  List.filter int (List.filter f l) = List.filter int (List.filter g l).
+Proof.
+  induction l as [|x r IH]; intros H; simpl; [reflexivity|].
+  assert (IH' : List.filter int (List.filter f r) = List.filter int (List.filter g r)).
+  { apply IH. intros m Hm. apply H. right. exact Hm. }
+  destruct (int x) eqn:Hx.
+  - rewrite (H x (or_introl eq_refl) Hx). destruct (g x); simpl; rewrite ?Hx, IH'; reflexivity.
+  - destruct (f x), (g x); simpl; rewrite ?Hx; exact IH'.
+Qed.
+
+Theorem complete_once_passed st k pos res d :
+  reach st -> r_conn st = Some (k, HCall pos res) -> r_inflight st = [] ->
+  (forall m, List.In m F -> int m = true -> o_id m <= d) -> d <= pos ->
+  r_recv st = List.filter int (List.filter (fun m => ltb2 ls0 (mid m)) F).
+Proof.
+  intros Hreach Hconn Hinfl Hd Hdp.
+  destruct (reach_inv _ Hreach) as [_ Hl Hr Hc]. rewrite Hconn in Hc. destruct Hc as [_ [Heq Hcase]].
+  rewrite Hinfl in Heq. simpl in Heq. rewrite Hr.
+  destruct Hcase as [[Hle _]|(Hres & _ & _ & Hfst)].
+  - transitivity (List.filter int (between ls0 (hp pos) F)).
+    + rewrite (between_split ls0 (r_last st) (hp pos) F (flat_sorted STR Hwf) Hl Hle).
+      rewrite filter_int_app, Heq, app_nil_r. reflexivity.
+    + unfold between. apply filter_int_ext. intros m Hm Hi. unfold inb.
+      assert (Hle' : le2 (mid m) (hp pos)) by (specialize (Hd m Hm Hi); lex).
+      rewrite (proj2 (leb2_spec _ _) Hle'). apply andb_true_r.
+  - unfold between. apply filter_int_ext. intros m Hm Hi. unfold inb.
+    assert (Hle' : le2 (mid m) (r_last st)) by (specialize (Hd m Hm Hi); rewrite <- Hres; lex).
+    rewrite (proj2 (leb2_spec _ _) Hle'). apply andb_true_r.
+Qed.
+
 End Resume.
 
 (* ================================================================================== *)
